@@ -556,7 +556,8 @@ impl Node {
             let node_name = to.node.as_str();
 
             if let Some(conn) = self.connection_handle(node_name) {
-                let unlink_id = self.reference_counter.fetch_add(1, Ordering::SeqCst) as u64;
+                // The protocol's UNLINK_ID ids are in 1..2^64: 0 is not a valid id, and the counter starts at 0.
+                let unlink_id = self.reference_counter.fetch_add(1, Ordering::SeqCst) as u64 + 1;
                 let mut conn_guard = conn.lock().await;
                 conn_guard.unlink(from, to, unlink_id).await?;
                 Ok(())
